@@ -86,6 +86,37 @@ pub fn check_text(src: &str, ctx: &mut Ctx) -> Outcome {
             }
         }
     }
+    // (1b) the range conversion of every located node and name (multi-line spans included) must agree
+    // with converting its two ends separately by the reference
+    let mut range_fail: Option<(String, String)> = None;
+    for l in LocWalk::document(&doc) {
+        let Some((fid, s0, e0)) = l.span else { continue };
+        if fid != file_id || s0 > e0 || e0 > src.len() || !src.is_char_boundary(s0) || !src.is_char_boundary(e0) {
+            continue;
+        }
+        let (Some(rs), Some(re)) = (linecol::line_column(src, s0), linecol::line_column(src, e0)) else { continue };
+        ctx.sub_evals += 1;
+        match file.get_line_column_range(s0..e0) {
+            None => {
+                range_fail.get_or_insert(("C11|range|none".into(), format!("get_line_column_range({}..{}) is None for the in-bounds span of {} in {:?}", s0, e0, l.label, src)));
+            }
+            Some(r) => {
+                if (r.start.line, r.start.column, r.end.line, r.end.column) != (rs.0, rs.1, re.0, re.1) {
+                    // lines after one of ariadne's extra line terminators are the recorded finding
+                    let sep = ['\u{b}', '\u{c}', '\u{85}', '\u{2028}', '\u{2029}'];
+                    if !src[..e0].contains(sep) {
+                        range_fail.get_or_insert((
+                            "C11|range|differs".into(),
+                            format!("get_line_column_range({}..{}) of {} = {}:{}..{}:{}, reference {}:{}..{}:{} in {:?}", s0, e0, l.label, r.start.line, r.start.column, r.end.line, r.end.column, rs.0, rs.1, re.0, re.1, src),
+                        ));
+                    }
+                }
+            }
+        }
+    }
+    if let Some(f) = range_fail {
+        fails.push(f);
+    }
     // (2) every offset
     let mut probes = 0u64;
     let mut col_fail: Option<String> = None;
